@@ -105,11 +105,14 @@ func gen(r *hx.Rand, n int, tier string, emit func(string), st *hx.Stats) {
 		c := r.Fork()
 		kind := "iso"
 		switch p := c.Intn(100); {
-		case p < 30:
-		case p < 42:
+		case p < 28:
+		case p < 33:
 			kind = "isq"
-		case p < 90:
-			emit(genStore(c, st))
+		case p < 63:
+			emit(genStore(c, st, "m"))
+			continue
+		case p < 81:
+			emit(genStore(c, st, "s"))
 			continue
 		default:
 			st.Inc("resolver-flights")
@@ -117,6 +120,9 @@ func gen(r *hx.Rand, n int, tier string, emit func(string), st *hx.Stats) {
 			continue
 		}
 		nops := 20 + c.Intn(25)
+		if kind == "isq" {
+			nops = 10 + c.Intn(12) // four sqlite-backed servers per case: shorter histories
+		}
 		var ops []string
 		// every store starts with a model (possibly different variants)
 		for s := 0; s < 3; s++ {
@@ -612,7 +618,7 @@ func exec(line string, st *hx.Stats) string {
 	case strings.HasPrefix(line, "sf "):
 		return sfres.Exec(line)
 	case strings.HasPrefix(line, "isq "):
-		backend = "s"
+		backend = "f"
 	}
 	t := fga.NewToks(line)
 	t.Next()
